@@ -142,6 +142,8 @@ pub struct Node {
     /// APDU length prefix (top-level packet) instead of `len`
     pub apdu: bool,
     pub payload: Payload,
+    /// raw bytes to emit instead of the computed length prefix (hostile inputs only)
+    pub prefix_override: Option<Vec<u8>>,
 }
 
 #[derive(Clone, Debug, PartialEq)]
@@ -190,6 +192,11 @@ impl Node {
             Payload::Struct(s) => s.bytes()?,
         };
         let mut out = self.tag.clone();
+        if let Some(p) = &self.prefix_override {
+            out.extend(p);
+            out.extend(payload);
+            return Some(out);
+        }
         if self.apdu {
             out.extend(apdu_len(payload.len())?);
             out.extend(payload);
@@ -328,6 +335,7 @@ impl<'a> Codec<'a> {
             len: f.len.clone(),
             apdu: false,
             payload,
+            prefix_override: None,
         };
         // checks that only concern this element
         let plen = match &node.payload {
@@ -397,6 +405,7 @@ impl<'a> Codec<'a> {
             len: Len::None,
             apdu: def.cf.is_some(),
             payload: Payload::Struct(s),
+            prefix_override: None,
         };
         if n.bytes().is_none() {
             return Err(Reject::TooLong);
